@@ -200,14 +200,24 @@ Ltac case_step H :=
 
 (* ---- tactics ------------------------------------------------------------------------------------ *)
 
+Ltac solve_prem :=
+  match goal with
+  | |- @eq nat _ _ => solve [reflexivity | assumption | lia]
+  | |- _ = _ => solve [reflexivity | assumption | symmetry; assumption]
+  | |- _ <> _ => solve [discriminate | congruence | lia]
+  | |- _ < _ => lia
+  | |- _ <= _ => lia
+  | |- _ > _ => lia
+  | |- _ \/ _ => solve [auto]
+  | |- _ => assumption
+  end.
+
 Ltac saturate :=
   repeat match goal with
          | H : forall k0, PDtor ?k = PDtor k0 -> _ |- _ => specialize (H k eq_refl)
          | H : ?A -> _ |- _ =>
              match type of A with
-             | Prop => let h := fresh in
-                       assert (h : A) by (solve [reflexivity | discriminate | congruence | lia | assumption]);
-                       specialize (H h); clear h
+             | Prop => let h := fresh in assert (h : A) by solve_prem; specialize (H h); clear h
              end
          | H : _ /\ _ |- _ => destruct H
          end.
@@ -226,10 +236,12 @@ Ltac rew_fields :=
          | H : ires ?x = _ |- _ => rewrite H in *
          | H : iw ?x = _ |- _ => rewrite H in *
          | H : ipc ?x = _ |- _ => rewrite H in *
+         | H : sg ?s = _ |- _ => rewrite H in *
          end.
 
 Ltac loc_tac L :=
-  destruct L; constructor; simpl in *; intros; rew_fields; simpl in *; split_hyps; saturate; rew_fields; simpl in *;
+  destruct L; rew_fields; simpl in *; saturate;
+  constructor; simpl; intros; rew_fields; simpl in *; split_hyps; saturate; rew_fields; simpl in *;
   try discriminate; try congruence; try lia; repeat split; fin.
 
 Ltac case_ifs :=
@@ -242,8 +254,8 @@ Ltac case_ifs :=
 Lemma loc1_nreg g nr nn dp del d j x : loc1 g nr nn dp del d j x -> j <> nr -> loc1 g (S nr) nn dp del d j x.
 Proof. intros L H. loc_tac L. Qed.
 
-Lemma loc1_dt_set g nr nn dp del i j x :
-  loc1 g nr nn dp del None j x -> j <> i -> loc1 g nr nn dp del (Some i) j x.
+Lemma loc1_dt_set g nr nn dp del dp' del' i j x :
+  loc1 g nr nn dp del None j x -> j <> i -> loc1 g nr nn dp' del' (Some i) j x.
 Proof. intros L H. destruct (ipc x) eqn:E; loc_tac L. Qed.
 
 Lemma loc1_dtor_progress g nr nn dp del dp' del' d j x :
